@@ -833,6 +833,7 @@ static object_t* object_present2 (char *str, object_t * ob) {
   svalue_t *ret;
   char *p;
   size_t count = 0, length;
+  object_t *env = ob ? ob->super : 0;	/* the inventory being searched */
 
   if ((length = strlen (str)))
     {
@@ -863,6 +864,11 @@ static object_t* object_present2 (char *str, object_t * ob) {
       ret = apply (APPLY_ID, ob, 1, ORIGIN_DRIVER);
 
       if (ob->flags & O_DESTRUCTED)
+        return 0;
+
+      /* id() moved ob out of the searched inventory: it is not present any
+       * more and its next_inv continues the inventory of another object */
+      if (ob->super != env)
         return 0;
 
       if (IS_ZERO (ret))
